@@ -374,6 +374,152 @@ def translate_prox_site(site):
         py2lean.CALL_HOOKS.remove(_prox_hook)
 
 
+# ---- conjugate gradient: the update formulas of `cg` as typed vector expressions (C06 / C07) -----------------------------
+# K = scalars, V = vectors.  `a + b`, `a - b` on vectors are `ops.add / ops.sub`, scalar * vector is `ops.smul`,
+# `torch.vdot(u.flatten(), v.flatten())` (and its `.real`: the value is real for the real embedding the theorems use) is `ops.dot u v`,
+# `operator(v)` (unpacked by `(y,) = ...` or `[0]`) is `H v`, `.clone()` / `.flatten()` are the identity on values.
+CG_TYPES = {'solution': 'V', 'residual': 'V', 'conjugate_vector': 'V', 'operator_conjugate_vector': 'V', 'right_hand_side': 'V',
+            'residual_flat': 'V', 'initial_value': 'V', 'residual_norm_squared': 'K', 'residual_norm_squared_previous': 'K', 'alpha': 'K', 'beta': 'K'}
+# target -> (Lean name, parameters in this order, result type, fallback body)
+CG_SITES = [
+    ('init_residual', 'residual', ['right_hand_side', 'solution'], 'V', 'ops.sub right_hand_side (H solution)', 'pre'),
+    ('init_direction', 'conjugate_vector', ['residual'], 'V', 'residual', 'pre'),
+    ('rr', 'residual_norm_squared', ['residual'], 'K', 'ops.dot residual residual', 'loop'),
+    ('beta', 'beta', ['residual_norm_squared', 'residual_norm_squared_previous'], 'K', 'residual_norm_squared / residual_norm_squared_previous', 'loop'),
+    ('direction', 'conjugate_vector', ['residual', 'beta', 'conjugate_vector'], 'V', 'ops.add residual (ops.smul beta conjugate_vector)', 'loop'),
+    ('hp', 'operator_conjugate_vector', ['conjugate_vector'], 'V', 'H conjugate_vector', 'loop'),
+    ('alpha', 'alpha', ['residual_norm_squared', 'conjugate_vector', 'operator_conjugate_vector'], 'K',
+     'residual_norm_squared / ops.dot conjugate_vector operator_conjugate_vector', 'loop'),
+    ('solution', 'solution', ['solution', 'alpha', 'conjugate_vector'], 'V', 'ops.add solution (ops.smul alpha conjugate_vector)', 'loop'),
+    ('residual', 'residual', ['residual', 'alpha', 'operator_conjugate_vector'], 'V', 'ops.sub residual (ops.smul alpha operator_conjugate_vector)', 'loop'),
+    ('rr_previous', 'residual_norm_squared_previous', ['residual_norm_squared'], 'K', 'residual_norm_squared', 'loop'),
+]
+for _c in CG_SITES:
+    SITE_PROPS['cg_' + _c[0]] = 'C06'
+    SITE_ALSO['cg_' + _c[0]] = ['C07']
+
+
+def _vexpr(node, subst, used):
+    """(Lean term, 'K' | 'V'); `subst` inlines local aliases such as residual_flat = residual.flatten()"""
+    U = py2lean.Untranslatable
+    if isinstance(node, ast.Name):
+        if node.id in subst:
+            used.extend(subst[node.id][2])
+            return subst[node.id][:2]
+        if node.id in CG_TYPES:
+            used.append(node.id)
+            return node.id, CG_TYPES[node.id]
+        raise U(f'name {node.id}')
+    if isinstance(node, ast.Attribute) and node.attr == 'real':
+        t, ty = _vexpr(node.value, subst, used)
+        if ty != 'K':
+            raise U('.real of a vector')
+        return t, ty
+    if isinstance(node, ast.Call) and isinstance(node.func, ast.Attribute) and node.func.attr in ('flatten', 'clone') and not node.args and not node.keywords:
+        t, ty = _vexpr(node.func.value, subst, used)
+        if ty != 'V':
+            raise U(f'.{node.func.attr}() of a scalar')
+        return t, ty
+    if isinstance(node, ast.Call) and ast.unparse(node.func) == 'torch.vdot' and len(node.args) == 2 and not node.keywords:
+        (a, ta), (b, tb) = _vexpr(node.args[0], subst, used), _vexpr(node.args[1], subst, used)
+        if (ta, tb) != ('V', 'V'):
+            raise U('vdot of non-vectors')
+        return f'(ops.dot {a} {b})', 'K'
+    if isinstance(node, ast.Subscript) and isinstance(node.slice, ast.Constant) and node.slice.value == 0 and isinstance(node.value, ast.Call) \
+            and ast.unparse(node.value.func) == 'operator' and len(node.value.args) == 1 and not node.value.keywords:
+        a, ta = _vexpr(node.value.args[0], subst, used)
+        if ta != 'V':
+            raise U('operator applied to a scalar')
+        return f'(H {a})', 'V'
+    if isinstance(node, ast.BinOp):
+        (a, ta), (b, tb) = _vexpr(node.left, subst, used), _vexpr(node.right, subst, used)
+        if isinstance(node.op, (ast.Add, ast.Sub)):
+            if ta != tb:
+                raise U('mixed addition')
+            sym, fn_ = ('+', 'ops.add') if isinstance(node.op, ast.Add) else ('-', 'ops.sub')
+            return (f'({fn_} {a} {b})', 'V') if ta == 'V' else (f'({a} {sym} {b})', 'K')
+        if isinstance(node.op, ast.Mult):
+            if (ta, tb) == ('K', 'V'):
+                return f'(ops.smul {a} {b})', 'V'
+            if (ta, tb) == ('V', 'K'):
+                return f'(ops.smul {b} {a})', 'V'
+            if (ta, tb) == ('K', 'K'):
+                return f'({a} * {b})', 'K'
+            raise U('product of vectors')
+        if isinstance(node.op, ast.Div) and (ta, tb) == ('K', 'K'):
+            return f'({a} / {b})', 'K'
+    raise U(f'expression {ast.unparse(node)[:50]}')
+
+
+def translate_cg():
+    """one definition per assignment of `cg` (before the loop / in the loop body, incl. the `is not None` branch), in source order"""
+    U = py2lean.Untranslatable
+    found, order, err = {}, [], None
+    try:
+        tree = ast.parse((SRC / 'algorithms/optimizers/cg.py').read_text())
+        fn = _find(tree, None, 'cg')
+        loops = [st for st in fn.body if isinstance(st, ast.For)]
+        if len(loops) != 1:
+            raise U('expected exactly one for loop')
+        pre = fn.body[:fn.body.index(loops[0])]
+
+        def flat(stmts):
+            for st in stmts:
+                if isinstance(st, ast.If) and ast.unparse(st.test) == 'residual_norm_squared_previous is not None' and not st.orelse:
+                    yield from flat(st.body)
+                else:
+                    yield st
+
+        for where, stmts in (('pre', pre), ('loop', list(flat(loops[0].body)))):
+            subst = {}
+            for st in stmts:
+                if not isinstance(st, (ast.Assign, ast.AnnAssign)):
+                    continue
+                tgt = st.targets[0] if isinstance(st, ast.Assign) else st.target
+                val = st.value
+                if isinstance(tgt, ast.Tuple) and len(tgt.elts) == 1:  # (y,) = operator(v)
+                    tgt, val = tgt.elts[0], ast.Subscript(value=val, slice=ast.Constant(value=0))
+                if not isinstance(tgt, ast.Name) or val is None:
+                    continue
+                if isinstance(val, ast.Constant) and val.value is None:
+                    continue  # residual_norm_squared_previous = None before the loop: `rrPrev := none` of the model
+                if tgt.id == 'solution' and where == 'pre':
+                    txt = ast.unparse(val)
+                    if txt != 'initial_value.clone() if initial_value is not None else right_hand_side.clone()':
+                        raise U(f'start value: {txt[:60]}')
+                    continue  # the model's `match x0 with | some v => v | none => b`, pinned as source text
+                used = []
+                term, ty = _vexpr(val, subst, used)
+                if tgt.id == 'residual_flat':
+                    subst[tgt.id] = (term, ty, list(used))
+                    continue
+                if tgt.id not in CG_TYPES or CG_TYPES[tgt.id] != ty:
+                    raise U(f'assignment to {tgt.id} of type {ty}')
+                found[(where, tgt.id)] = (term, used, st.lineno)
+                order.append((where, tgt.id))
+        # the order of the updates inside the loop is part of what the model assumes
+        want = [(w, t) for _, t, _, _, _, w in CG_SITES]
+        if order != want:
+            raise U(f'assignments in the order {order}, expected {want}')
+    except (U, OSError, SyntaxError, ValueError) as e:
+        err = str(e)
+    out, status = [], {}
+    for lname, tgt, params, ty, fb, where in CG_SITES:
+        sig = ' '.join(f'({p_} : {CG_TYPES[p_]})' for p_ in params)
+        ok = err is None and set(found[(where, tgt)][1]) == set(params)
+        if ok:
+            term, _, line = found[(where, tgt)]
+            out.append(f'/-- translated from `algorithms/optimizers/cg.py:cg` (line {line}): `{tgt} = …` -/\n'
+                       f'def cg_{lname} (ops : M.VecOps K V) (H : V → V) {sig} : {ty} :=\n  {term}\ndef cg_{lname}_translated : Bool := true')
+            status['cg_' + lname] = 'translated'
+        else:
+            why = err or f'free names {sorted(set(found[(where, tgt)][1]))}, expected {params}'
+            out.append(f'/-- FALLBACK (source outside the translatable fragment: {why[:100]}): the hand-written model -/\n'
+                       f'def cg_{lname} (ops : M.VecOps K V) (H : V → V) {sig} : {ty} :=\n  {fb}\ndef cg_{lname}_translated : Bool := false')
+            status['cg_' + lname] = f'fallback: {why}'
+    return '\n\n'.join(out), status
+
+
 def _find(tree, cls, func):
     scope = tree
     if cls is not None:
@@ -418,7 +564,7 @@ def translate_site(site):
 
 def generate():
     out = ['import Mrpro.Model.Index', 'import Mrpro.Model.Ops', 'import Mrpro.Model.KDataOps',
-           'import Mrpro.Model.SrcModel', 'import Mrpro.Model.Signal', 'import Mrpro.Model.Load', 'import Mrpro.Model.Rotation', 'import Mrpro.Model.Functional', '',
+           'import Mrpro.Model.SrcModel', 'import Mrpro.Model.Signal', 'import Mrpro.Model.Load', 'import Mrpro.Model.Rotation', 'import Mrpro.Model.Functional', 'import Mrpro.Model.CG', '',
            '/-! GENERATED by harness/translate_src.py from /repo/src on every check run. Do not edit. -/', '',
            'namespace M.Src', '']
     status = {}
@@ -447,7 +593,12 @@ def generate():
         text, st = translate_prox_site(site)
         out += [text, '']
         status['prox_' + site['name']] = st
-    out += ['end Prox', '', 'end M.Src', '']
+    out += ['end Prox', '', '/-! conjugate gradient: the update formulas -/', 'section CG',
+            'variable {K V : Type} [Add K] [Sub K] [Mul K] [Div K]', 'set_option linter.unusedVariables false', '']
+    text, st = translate_cg()
+    out += [text, '']
+    status.update(st)
+    out += ['end CG', '', 'end M.Src', '']
     return '\n'.join(out), status
 
 
